@@ -490,6 +490,45 @@ pub fn run(ctx: &mut Ctx) {
         }
     });
 
+    // ---- phase: values produced by the library's own constructors and blinding functions
+    // (real range / surjection proofs, commitments, ECDH nonces)
+    let n = ctx.budget(160, 8_000);
+    ctx.phase("blinded-values", n, |ctx, k| {
+        use rand::SeedableRng;
+        let sc = super::c04::gen_scenario(&mut ctx.rng, &crate::gen::blind::Dials { issuances: k % 2 == 0, ..Default::default() });
+        let mut tx = sc.tx.clone();
+        let mut brng = rand_chacha::ChaCha20Rng::seed_from_u64(ctx.rng.gen());
+        if gen::with_secp(|s| tx.blind(&mut brng, s, &sc.blind_secrets, false)).is_err() {
+            ctx.count("blinding-failed(see C04)");
+            return;
+        }
+        ctx.shape(("blinded", sc.shape.clone()));
+        check_value(ctx, &tx, "blinded");
+        for o in &tx.output {
+            check_value(ctx, &o.witness, "blinded");
+            let mut o2 = o.clone();
+            o2.witness = TxOutWitness::default();
+            check_value(ctx, &o2, "blinded");
+            check_value(ctx, &o.asset, "blinded");
+            check_value(ctx, &o.value, "blinded");
+            check_value(ctx, &o.nonce, "blinded");
+        }
+        for sp in &sc.spent {
+            let mut s2 = sp.clone();
+            s2.witness = TxOutWitness::default();
+            check_value(ctx, &s2, "constructed");
+        }
+        // constructor-made values
+        let fee = TxOut::new_fee(ctx.rng.gen(), gen::asset_id(&mut ctx.rng));
+        check_value(ctx, &fee, "constructed");
+        check_value(ctx, &AssetIssuance::null(), "constructed");
+        check_value(ctx, &OutPoint::null(), "constructed");
+        check_value(ctx, &elements::TxIn::default(), "constructed");
+        if k < 4 {
+            ctx.sample(&format!("blinded-{}", k), json!({"hex": hex_short(&serialize(&tx))}));
+        }
+    });
+
     // ---- phase: mutated encodings of generated values, bytes -> value
     let n = ctx.budget(30_000, 1_500_000);
     ctx.phase("mutations", n, |ctx, k| {
@@ -526,6 +565,7 @@ pub fn run(ctx: &mut Ctx) {
     // ---- phase: every compact-size boundary value, written in every wider (non-minimal)
     // width, at each kind of length site: all must be rejected; the minimal form accepted.
     let boundaries: Vec<u64> = vec![0, 1, 2, 251, 252, 253, 254, 255, 256, 257, 65534, 65535, 65536, 65537, 70000];
+    ctx.seen("exhaustive_subspaces", "C01: 15 compact-size boundary lengths x every wider (non-minimal) width x 5 kinds of length site; every byte value at every confidential-prefix / witness-flag / params-tag / compact-size position of the sweep seeds");
     ctx.phase("varint-boundaries", boundaries.len() as u64 * 5, |ctx, k| {
         let n = boundaries[(k / 5) as usize] as usize;
         let site = k % 5;
@@ -575,6 +615,69 @@ pub fn run(ctx: &mut Ctx) {
                 ctx.violation(&format!("nonminimal-varint-accepted/{}/width{}", name, w), json!({"len": n, "width": w, "site": name, "head": hex_short(&b[..b.len().min(80)])}));
             }
             ctx.shape(("boundary", n, w, site));
+        }
+    });
+
+    // ---- phase: long byte vectors (beyond any plausible read-chunk size) and their truncations:
+    // the complete encoding is accepted, every strict prefix is rejected (all these types are
+    // self-delimiting), and nothing accepted re-encodes differently.
+    let big_lens: Vec<usize> = vec![65_536, 131_072, 131_073, 140_000, 262_145, 1_048_577];
+    let n = ctx.budget(big_lens.len() as u64 * 5, big_lens.len() as u64 * 5 * 8);
+    ctx.phase("long-vectors", n, |ctx, k| {
+        let n = big_lens[(k as usize / 5) % big_lens.len()];
+        let site = k % 5;
+        let payload = gen::bytes(&mut ctx.rng, n);
+        let lenenc = crate::refmodel::merkle::cs(n as u64);
+        let (pre, post, name): (Vec<u8>, Vec<u8>, &str) = match site {
+            0 => (vec![], vec![], "Vec<u8>"),
+            1 => (vec![], vec![], "Script"),
+            2 => {
+                let mut pre = vec![1u8];
+                pre.extend_from_slice(&gen::arr32(&mut ctx.rng));
+                pre.push(1);
+                pre.extend_from_slice(&5u64.to_be_bytes());
+                pre.push(0);
+                (pre, vec![], "TxOut")
+            }
+            3 => (vec![0, 0, 1], vec![0], "TxInWitness"),
+            _ => {
+                let mut pre = vec![2, 0, 0, 0, 0, 1];
+                pre.extend_from_slice(&gen::arr32(&mut ctx.rng));
+                pre.extend_from_slice(&[0, 0, 0, 0]);
+                (pre, vec![0xff, 0xff, 0xff, 0xff, 0, 0, 0, 0, 0], "Transaction")
+            }
+        };
+        let mut full = pre.clone();
+        full.extend_from_slice(&lenenc);
+        let body = full.len();
+        full.extend_from_slice(&payload);
+        full.extend_from_slice(&post);
+        let ok = decode_named(ctx, name, &full, "long-vector");
+        ctx.check(ok, &format!("long-vector-rejected/{}", name), || json!({"len": n, "site": name}));
+        let mut cuts = vec![full.len() - 1, body + n - 1, body + n / 2, body + 1, body];
+        for p2 in [4096usize, 65_536, 131_072, 262_144, 1_048_576] {
+            if p2 < n {
+                cuts.push(body + p2);
+                cuts.push(body + p2 + 1);
+            }
+        }
+        for _ in 0..3 {
+            cuts.push(ctx.rng.gen_range(body..full.len()));
+        }
+        cuts.sort_unstable();
+        cuts.dedup();
+        for c in cuts {
+            if c >= full.len() {
+                continue;
+            }
+            ctx.count("long-vector-truncations");
+            if decode_named(ctx, name, &full[..c], "long-vector-truncated") {
+                ctx.violation(
+                    &format!("truncated-encoding-accepted/{}", name),
+                    json!({"type": name, "declared_len": n, "kept_payload_bytes": c.saturating_sub(body), "total_len": full.len(), "cut": c}),
+                );
+            }
+            ctx.shape(("long", n, site, (c - body).min(n) * 8 / n));
         }
     });
 
